@@ -429,7 +429,7 @@ class URL:
             )
 
         self = object.__new__(URL)
-        self._scheme = scheme
+        self._scheme = scheme = scheme.lower()
         _host: Union[str, None] = None
         if authority:
             user, password, _host, port = split_netloc(authority)
